@@ -77,6 +77,20 @@ def run_case(case):
 
     def on_event(name, lab, args, out):
         observe(lab, name, posterior=(name != 'add_bound'))
+        # the state a new process would load from the file right now carries
+        # statistics that are the estimators of the samples it holds
+        if name in ('write', 'write_shell_update'):
+            st['writes'] = st.get('writes', 0) + 1
+            if st['writes'] % 6 == 1 and st.get('peeks', 0) < 12:
+                st['peeks'] = st.get('peeks', 0) + 1
+                try:
+                    s2 = lab.peek()
+                except AttributeError:
+                    raise
+                except Exception as e:
+                    res.viol('checkpoint-unloadable', name, repr(e))
+                    return
+                so.check_estimators(s2, res, 'file-after-' + name, split)
 
     def on_op(lab, op, out):
         observe(lab, 'after-' + op[0], posterior=True)
@@ -93,6 +107,7 @@ def run_case(case):
     res.cls('empty_shells_removed', st['removed'])
     res.cls('networks', case['cfg']['n_networks'] > 0)
     res.count('observation-instants', st['events'])
+    res.count('checkpoint-loads', st.get('peeks', 0))
     res.nontrivial = st['nt']
     return res
 
@@ -102,4 +117,5 @@ def replay(case):
 
 
 def shard(ctx, tier, i, n):
-    hyp_generate(ctx, strategy(), run_case, plan(tier)['examples'])
+    hyp_generate(ctx, strategy(), run_case, plan(tier)['examples'],
+                 case_timeout=150)
